@@ -1,8 +1,9 @@
 #!/bin/bash
 # runs every claimed check's thorough tier once (optionally only the ids given) and prints one line per check
-ids=${@:-$(jq -r '.checks[].property_id' /verif/MANIFEST.json)}
+here=$(cd $(dirname $0) && pwd)
+ids=${@:-$(jq -r '.checks[].property_id' $here/MANIFEST.json)}
 for id in $ids; do
   t0=$(date +%s)
-  out=$(cd /verif && ./check $id --tier thorough 2>&1 | grep -E "^(OK|VIOLATION|INCONCLUSIVE)" | head -3 | tr '\n' ' ')
+  out=$(cd $here && ./check $id --tier thorough 2>&1 | grep -E "^(OK|VIOLATION|INCONCLUSIVE)" | head -3 | tr '\n' ' ')
   echo "$id ($(( $(date +%s) - t0 )) s): $out"
 done
